@@ -424,6 +424,7 @@ class J1939_22:
                             # of the message we are about to transmit
                             # (the answer may be processed before we continue here)
                             buf['next_packet_to_send'] += 1
+                            buf['last_dt_time'] = time.time()
 
                             should_break = False
                             send_eom_status = False
@@ -583,7 +584,12 @@ class J1939_22:
             self._snd_buffer[buffer_hash]['next_wait_on_cts'] = self._snd_buffer[buffer_hash]['next_packet_to_send'] + num_segments - 1
 
             self._snd_buffer[buffer_hash]['state'] = self.SendBufferState.SENDING_RTS_CTS
-            self._snd_buffer[buffer_hash]['deadline'] = time.time() # wake up immediately
+            deadline = time.time() # wake up immediately
+            if self._minimum_tp_rts_cts_dt_interval != None:
+                # keep the configured minimum interval also between the last segment of the
+                # previous CTS window and the first segment of this one
+                deadline = max(deadline, self._snd_buffer[buffer_hash].get('last_dt_time', 0) + self._minimum_tp_rts_cts_dt_interval)
+            self._snd_buffer[buffer_hash]['deadline'] = deadline
             self.__job_thread_wakeup()
 
         elif control_byte == self.TpControlType.EOM_STATUS:
